@@ -308,7 +308,8 @@ def canon_value(ctx: Ctx, v: Any) -> dict:
     if t is list:
         return {"t": "list", "oid": oid, "xs": [canon_value(ctx, x) for x in v]}
     if t is tuple:
-        return {"t": "tuple", "oid": oid, "xs": [canon_value(ctx, x) for x in v]}
+        # CPython has a single empty tuple: its identity carries no information
+        return {"t": "tuple", "oid": oid if v else 0, "xs": [canon_value(ctx, x) for x in v]}
     if t is set:
         return {"t": "set", "oid": oid, "xs": [canon_value(ctx, x) for x in v]}
     if t is dict:
